@@ -63,7 +63,7 @@ fn aead_tamper(ctx: &Ctx) {
         let pt = rng.bytes_in(0, 48);
         let aad = rng.bytes_in(0, 24);
         let ct = ossl::aead_seal(&key, &nonce, &aad, &pt);
-        let mut try_open = |what: &str, k: &[u8], n: &[u8], c: &[u8], a: &[u8]| {
+        let try_open = |what: &str, k: &[u8], n: &[u8], c: &[u8], a: &[u8]| {
             ctx.eval();
             let case = || json!({"altered": what, "key": hex(k), "nonce": hex(n), "aad": hex(a), "ciphertext": hex(c), "original_ciphertext": hex(&ct)});
             match guarded(|| chapoly_decrypt_ietf(k, n, c, a)) {
